@@ -76,23 +76,66 @@ func zzCovered(allow []rbacv1.PolicyRule, group, resource, name, url, verb strin
 	return c
 }
 
+// zzShapedRule builds a PolicyRule whose list lengths are chosen by the
+// solver within [lo,hi] for the focus dimension and within [1,1] (names:
+// [0,1]) elsewhere; every element is an unconstrained symbolic string.
+func zzShapedRule(name string, focus, lo, hi int, isURL bool) rbacv1.PolicyRule {
+	dim := func(d int, what string, min int) []string {
+		l, h := min, 1
+		if d == focus {
+			l, h = lo, hi
+		}
+		n := l + zz.Choose(name+"."+what+".len", h-l+1)
+		out := make([]string, 0, n)
+		for i := 0; i < n; i++ {
+			out = append(out, zz.Str(name+"."+what+"."+string(rune('a'+i))))
+		}
+		return out
+	}
+	r := rbacv1.PolicyRule{Verbs: dim(0, "verbs", 1)}
+	if isURL {
+		r.NonResourceURLs = dim(1, "urls", 1)
+		for _, u := range r.NonResourceURLs {
+			// the API server only admits non-empty non-resource URLs
+			zz.Assume(u != "")
+		}
+		return r
+	}
+	r.APIGroups = dim(1, "groups", 1)
+	r.Resources = dim(2, "resources", 1)
+	r.ResourceNames = dim(3, "names", 0)
+	return r
+}
+
 // HarnessC18Validate: for every allow list and every request list within the
 // bound, ValidatePermissionRequests rejects nothing only if every single
 // granular requested rule is covered by the allow list.
 //
 //gosym:harness
+//gosym:cover some-granular-request accepted-nonempty rejected
 func HarnessC18Validate() {
 	nAllow := zz.Bound(1, 2)
-	nReq := zz.Bound(1, 2)
-	maxList := zz.Bound(2, 2)
+	nReq := zz.Bound(1, 1)
+	hi := zz.Bound(2, 2)
+
+	// One list dimension (verbs, groups/urls, resources, names) at a time has
+	// solver-chosen length 0..hi on the allow side and 1..hi on the request
+	// side; the other dimensions have one element (names: none or one).
+	focus := zz.Choose("focus", 4)
+	reqIsURL := zz.Bool("req.isURL")
+	if reqIsURL && focus > 1 {
+		return // URL rules only have verbs and urls
+	}
 
 	allow := make([]rbacv1.PolicyRule, 0, nAllow)
 	for i := 0; i < nAllow; i++ {
-		allow = append(allow, zzPolicyRule("allow"+string(rune('0'+i)), maxList, true))
+		n := "allow" + string(rune('0'+i))
+		allow = append(allow, zzShapedRule(n, focus, 0, hi, zz.Bool(n+".isURL")))
 	}
 	reqs := make([]rbacv1.PolicyRule, 0, nReq)
 	for i := 0; i < nReq; i++ {
-		reqs = append(reqs, zzPolicyRule("req"+string(rune('0'+i)), maxList, true))
+		n := "req" + string(rune('0'+i))
+		reqs = append(reqs, zzShapedRule(n, focus, 1, hi, reqIsURL))
 	}
 
 	v := NewClusterRoleBackedValidator(&zzRoleGetter{rules: allow}, "allowed")
@@ -125,17 +168,18 @@ func HarnessC18Validate() {
 	if total > 0 {
 		zz.Cover("some-granular-request")
 	}
+	zz.Observe("rejected", len(rejected), total)
 	if len(rejected) == 0 {
 		if total > 0 {
 			zz.Cover("accepted-nonempty")
 		}
-		// Safety: nothing rejected => every granular request is covered.
+		// Safety (C18): nothing rejected => every granular request is covered
+		// by a single allow-list rule.
 		zz.Assert("accepted-implies-covered", allCovered)
 	} else {
 		zz.Cover("rejected")
-		// Liveness side (not a C18 violation, guards against reject-all):
-		// something rejected => not everything was covered.
+		// Completeness (guards the check against a reject-everything
+		// implementation; reported under its own label).
 		zz.Assert("rejected-implies-uncovered", zz.Not(allCovered))
 	}
-	zz.Observe("rejected", len(rejected))
 }
